@@ -60,9 +60,13 @@ package single
 //@   ensures [full-is-error] add && isErr(add.res0, ErrQueueFull) ==> isErr(err, ErrQueueFull)
 
 //@ func (c *Sequencer) GetNextBatch(ctx, req) (resp, err)
-//@   property C10
+//@   property C10 C11
 //@   requires [wiring] c.queue != nil && c.queue.db != nil
 //@   observe nx := call Next
 //@   modifies c.queue.queue, durable c.queue.db.kvHas, durable c.queue.db.size
 //@   ensures [foreign-id-rejected] val(c.Id) != val(req.Id) ==> isErr(err, ErrInvalidId) && nx.count == 0
 //@   ensures [hands-out-next] val(c.Id) == val(req.Id) && err == nil ==> nx.count == 1 && resp != nil && resp.Batch == nx.res0
+// the batch at the head of the queue is handed out whole, and the queue only loses that batch: nothing is
+// cut off and kept back in memory (the write-ahead record of the batch is gone by then)
+//@   ensures [hands-out-whole-batch] val(c.Id) == val(req.Id) && err == nil && old(len(c.queue.queue)) > 0 ==> resp.Batch.Transactions == old(c.queue.queue[0].Transactions)
+//@   ensures [queue-only-popped] val(c.Id) == val(req.Id) && err == nil && old(len(c.queue.queue)) > 0 ==> len(c.queue.queue) == old(len(c.queue.queue)) - 1
